@@ -7,6 +7,7 @@ import (
 	"os"
 	"os/exec"
 	"path/filepath"
+	"strings"
 	"sort"
 	"time"
 
@@ -106,7 +107,7 @@ func invoke(s *astisub.Subtitles, writer string, env Env) callResult {
 
 func invokeSink(s *astisub.Subtitles, writer string, env Env, fault *simio.WriteFault, medium ...string) callResult {
 	var r callResult
-	r.Before = canon.Hash(s)
+	r.Before = canon.HashWithCapacity(s)
 	j := 0
 	hooks.SetMapOrder(func(site, n int) []int {
 		r.Occ = append(r.Occ, mapOcc{site, n})
@@ -150,7 +151,7 @@ func invokeSink(s *astisub.Subtitles, writer string, env Env, fault *simio.Write
 	default:
 		r.Class = "ok"
 	}
-	r.After = canon.Hash(s)
+	r.After = canon.HashWithCapacity(s)
 	return r
 }
 
@@ -228,7 +229,7 @@ func CheckEpisode(ep Episode) (*Violation, []callResult) {
 			continue
 		}
 		if r.Before != r.After {
-			return mk("input-modified", c.Writer, fmt.Sprintf("call #%d (%s) changed the cue list it was given (canonical rendering incl. aliasing differs before/after)", i, c.Writer)), results
+			return mk("input-modified", c.Writer, fmt.Sprintf("call #%d (%s) changed the cue list it was given (canonical rendering incl. aliasing and the spare capacity of its slices differs before/after)", i, c.Writer)), results
 		}
 		if r.Class != ref.Class {
 			return mk("nondeterministic-outcome", c.Writer, fmt.Sprintf("call #%d (%s) ended in %s, alone under the baseline environment in %s (%s / %s)", i, c.Writer, r.Class, ref.Class, trunc(r.Err, 120), trunc(ref.Err, 120))), results
@@ -780,7 +781,7 @@ func c19FileOne(dir string, src ListSource, ext string, junk []byte, n int) *Vio
 	// extension of the same family (.ssa / .ass) or the plain writer must give what a fresh list gives
 	var why string
 	if s := src.Build(); s != nil {
-		before := canon.Hash(s)
+		before := canon.HashWithCapacity(s)
 		p1 := filepath.Join(dir, fmt.Sprintf("same-%d.%s", n, ext))
 		werr := func() (err error) {
 			defer func() {
@@ -791,7 +792,7 @@ func c19FileOne(dir string, src ListSource, ext string, junk []byte, n int) *Vio
 			return s.Write(p1)
 		}()
 		os.Remove(p1)
-		if werr == nil && canon.Hash(s) != before {
+		if werr == nil && canon.HashWithCapacity(s) != before {
 			why = fmt.Sprintf("Subtitles.Write(x.%s) changed the cue list it was called on (canonical rendering incl. metadata differs before/after)", ext)
 		}
 	}
@@ -816,6 +817,16 @@ func c19PlainStage(cfg Config, lim c19Limits, srcs []ListSource, res *ShardResul
 	}
 	c19FileStage(cfg, srcs, res)
 	c19FirstWriteStage(cfg, srcs, res)
+	for _, name := range c19CLICases {
+		if !cfg.Mine(Key64("c19-cli", name)) {
+			continue
+		}
+		res.Evaluations++
+		res.Extra["cli_repetition_cases_real_os"]++
+		if v := c19CLIOne(cfg, name); v != nil {
+			res.Violations = append(res.Violations, *v)
+		}
+	}
 	// long lists are written fewer times (the cost of a write grows with the list, the number of map orders does not)
 	var small, big []ListSource
 	for _, src := range srcs {
@@ -900,7 +911,82 @@ func replayC19(cfg Config, rf ReplayFile) (*Violation, error) {
 	return checkC19Any(cfg, ep), nil
 }
 
+// c19CLIOne runs one subcommand of the repository's tool (built from the tree under test) several times on the same
+// input files: same inputs, same file - "in the same process or in another". Real OS and real processes.
+func c19CLIOne(cfg Config, name string) *Violation {
+	cli := filepath.Join(cfg.Bins, "astisub-cli")
+	if _, err := os.Stat(cli); err != nil || cfg.Bins == "" {
+		return nil
+	}
+	dir, err := os.MkdirTemp(cfg.Scratch, "c19cli-")
+	if err != nil {
+		return nil
+	}
+	defer os.RemoveAll(dir)
+	// three inputs sharing their time boundaries (ties when merged) and their style ids, the middle one much larger
+	small := func(tag string) []byte {
+		return []byte("WEBVTT\n\nSTYLE\n::cue(." + tag + ") { color: red; }\n\n00:00:01.000 --> 00:00:02.000\n" + tag + " one\n\n00:00:03.000 --> 00:00:04.000\n" + tag + " two\n\n00:00:05.000 --> 00:00:06.000\n" + tag + " three\n")
+	}
+	var big bytes.Buffer
+	big.WriteString("WEBVTT\n\n")
+	for i := 0; i < 6000; i++ {
+		fmt.Fprintf(&big, "00:%02d:%02d.000 --> 00:%02d:%02d.900\nbig %d\n\n", i/60%60, i%60, i/60%60, i%60, i)
+	}
+	a, b, c := filepath.Join(dir, "a.vtt"), filepath.Join(dir, "b.vtt"), filepath.Join(dir, "c.vtt")
+	_ = os.WriteFile(a, small("a"), 0o644)
+	_ = os.WriteFile(b, big.Bytes(), 0o644)
+	_ = os.WriteFile(c, small("c"), 0o644)
+	args := map[string][]string{
+		"merge3":   {"merge", "-i", a, "-i", b, "-i", c},
+		"merge3r":  {"merge", "-i", b, "-i", a, "-i", c},
+		"merge2":   {"merge", "-i", a, "-i", c},
+		"convert":  {"convert", "-i", a},
+		"optimize": {"optimize", "-i", a},
+		"fragment": {"fragment", "-f", "700ms", "-i", a},
+		"sync":     {"sync", "-s", "1s", "-i", a},
+	}[name]
+	if args == nil {
+		return nil
+	}
+	var first []byte
+	for k := 0; k < 6; k++ {
+		for _, ext := range []string{"ttml", "ssa"} {
+			if ext == "ssa" && k > 0 {
+				continue
+			}
+			out := filepath.Join(dir, fmt.Sprintf("out-%d.%s", k, ext))
+			cmd := exec.Command(cli, append(append([]string{}, args...), "-o", out)...)
+			cmd.Env = append(os.Environ(), fmt.Sprintf("GOMAXPROCS=%d", []int{1, 2, 4, 16}[k%4]))
+			if err := cmd.Run(); err != nil {
+				return nil // a failing command is not this property's business
+			}
+			got, err := os.ReadFile(out)
+			if err != nil || ext == "ssa" {
+				continue
+			}
+			if first == nil {
+				first = got
+			} else if !bytes.Equal(first, got) {
+				ep := Episode{Kind: "cli", Writer: name}
+				sc, _ := json.Marshal(ep)
+				at := 0
+				for at < len(first) && at < len(got) && first[at] == got[at] {
+					at++
+				}
+				return &Violation{Property: "C19", Class: "nondeterministic-output", Signature: "C19 cli-" + name + " nondeterministic-output",
+					Detail: fmt.Sprintf("astisub %s on the same input files: run #%d wrote %d bytes that differ from the %d bytes of run #0 (first difference at byte %d: %s | %s)", strings.Join(args[:1], " "), k, len(got), len(first), at, ctx(first, at), ctx(got, at)), Scenario: sc}
+			}
+		}
+	}
+	return nil
+}
+
+var c19CLICases = []string{"merge3", "merge3r", "merge2", "convert", "optimize", "fragment", "sync"}
+
 func checkC19Any(cfg Config, ep Episode) *Violation {
+	if ep.Kind == "cli" {
+		return c19CLIOne(cfg, ep.Writer)
+	}
 	if ep.Kind == "file" {
 		dir, err := os.MkdirTemp(cfg.Scratch, "c19files-")
 		if err != nil {
